@@ -9,8 +9,7 @@ theorem startLazy_spec (cfg : Cfg) (src : Src) (ovr : Option Exec) (ctx : Option
     | .go r inh _ g' => specSrc cfg src ovr true g.subs = (r, inh, g'.subs) ∧ g'.invoked = g.invoked
     | .wait w inh g' =>
       (∀ inv, specFire cfg w inh g'.subs inv = ⟨(specSrc cfg src ovr true g.subs).1, inh, g'.subs, inv⟩) ∧
-      (specSrc cfg src ovr true g.subs).2 = (inh, g'.subs) ∧ g'.invoked = g.invoked ∧ d10FreeWait w = true ∧
-      (src == Src.unit) = false
+      (specSrc cfg src ovr true g.subs).2 = (inh, g'.subs) ∧ g'.invoked = g.invoked ∧ (src == Src.unit) = false
     | .crash _ => False := by
   cases src with
   | ready r =>
@@ -19,7 +18,7 @@ theorem startLazy_spec (cfg : Cfg) (src : Src) (ovr : Option Exec) (ctx : Option
     cases hs : submit cfg (ovr.getD .inl) ctx g with
     | callNow c g' => rw [hs] at h; simp [h.1, h.2]
     | dropNow c g' => rw [hs] at h; simp [h.1, h.2]
-    | queued jid k g' => rw [hs] at h; simp [h.1, h.2.1, specFire, d10FreeWait]
+    | queued jid k g' => rw [hs] at h; simp [h.1, h.2.1, specFire]
   | promiseFn e p f =>
     have h := startSrc_spec cfg (.promiseFn (ovr.getD e) p f) ctx g
     simp only [startLazy]
@@ -27,17 +26,17 @@ theorem startLazy_spec (cfg : Cfg) (src : Src) (ovr : Option Exec) (ctx : Option
     | go r inh c g' => rw [hs] at h; simpa [specSrc] using h
     | wait w inh g' => rw [hs] at h; simpa [specSrc] using h
     | crash g' => rw [hs] at h; exact h
-  | contract p f => simp [startLazy, startSrc, specSrc, specFire, d10FreeWait]
-  | contractOn e p f => simp [startLazy, startSrc, specSrc, specFire, d10FreeWait]
+  | contract p f => simp [startLazy, startSrc, specSrc, specFire]
+  | contractOn e p f => simp [startLazy, startSrc, specSrc, specFire]
   | unit => simp [startLazy, startSrc, specSrc]
   | sharedReady r => simp [startLazy, startSrc, specSrc]
-  | sharedContract p f => simp [startLazy, startSrc, specSrc, specFire, d10FreeWait]
+  | sharedContract p f => simp [startLazy, startSrc, specSrc, specFire]
 
 /-- a cascade whose outcome denotes `spec p'` comes to rest in a state satisfying the invariant -/
 theorem inv_settle (cfg : Cfg) (st0 : State) (o : Out) (p' : Prog) (h' : Handle)
     (hc : st0.crashed = false)
     (hh : (h' = .fut ∧ st0.held = true ∧ st0.ended = false) ∨ (h' = .none ∧ st0.held = false))
-    (hden : denK cfg [] o = some (spec cfg p')) (hok : okOut o = true) (hrun : Runs p') :
+    (hden : denK cfg [] o = some (spec cfg p')) (hrun : Runs p') :
     Inv cfg (settle st0 o) p' h' := by
   cases o with
   | done r inh c g =>
@@ -53,52 +52,29 @@ theorem inv_settle (cfg : Cfg) (st0 : State) (o : Out) (p' : Prog) (h' : Handle)
   | parked t g =>
     simp only [denK] at hden
     have hspec := (Option.some.inj hden).symm
-    simp only [okOut] at hok
-    simp [settle, Inv, hc, hspec, hok, hrun, hh]
+    simp [settle, Inv, hc, hspec, hrun, hh]
   | crash g => simp [denK] at hden
-
-theorem d10FreeProg_attach (p : Prog) (s : Step) (h : d10FreeProg { p with steps := p.steps ++ [s] } = true) :
-    d10FreeProg p = true ∧ d10FreeStep s = true := by
-  simp only [d10FreeProg, d10FreeSteps_append, d10FreeSteps, Bool.and_eq_true, Bool.and_true] at h
-  exact h
-
-theorem d10FreeProg_clientEv (p : Prog) (h : Handle) (ev : Event) (hd : d10FreeProg (clientEv (p, h) ev).1 = true) :
-    d10FreeProg p = true := by
-  cases ev <;> cases h <;> simp only [clientEv] at hd <;> try exact hd
-  all_goals first
-    | exact (d10FreeProg_attach _ _ hd).1
-    | (split at hd
-       · exact hd
-       · exact (d10FreeProg_attach _ _ hd).1)
 
 /-- the cascade started by `started` -/
 theorem inv_started (cfg : Cfg) (st0 : State) (steps : List Step) (hd flow : Bool) (s : Started) (p' : Prog) (h' : Handle)
     (hc : st0.crashed = false)
     (hh : (h' = .fut ∧ st0.held = true ∧ st0.ended = false) ∨ (h' = .none ∧ st0.held = false))
-    (hsteps : d10FreeSteps steps = true) (hrun : Runs p')
+    (hrun : Runs p')
     (hgo : ∀ r inh c g, s = .go r inh c g → spec cfg p' = specSteps cfg steps hd r inh g.subs g.invoked)
-    (hwait : ∀ w inh g, s = .wait w inh g → spec cfg p' = specThread cfg ⟨w, inh, steps, []⟩ g.subs g.invoked ∧
-      d10FreeWait w = true)
+    (hwait : ∀ w inh g, s = .wait w inh g → spec cfg p' = specThread cfg ⟨w, inh, steps, []⟩ g.subs g.invoked)
     (hcrash : ∀ g, s ≠ .crash g) :
     Inv cfg (started cfg st0 steps hd flow s) p' h' := by
   cases s with
   | go r inh c g =>
-    have h1 := runSteps_den cfg steps hd flow (if flow = true then c else none) r inh g hsteps
     simp only [started]
-    exact inv_settle cfg st0 _ p' h' hc hh (by rw [h1.1, hgo r inh c g rfl]) h1.2 hrun
+    exact inv_settle cfg st0 _ p' h' hc hh (by rw [runSteps_den, hgo r inh c g rfl]) hrun
   | wait w inh g =>
-    have := hwait w inh g rfl
     simp only [started]
-    refine inv_settle cfg st0 _ p' h' hc hh (by simp [denK, this.1]) ?_ hrun
-    simp [okOut, d10FreeThread, this.2, hsteps, d10FreeFrames]
+    exact inv_settle cfg st0 _ p' h' hc hh (by simp [denK, hwait w inh g rfl]) hrun
   | crash g => exact (hcrash g rfl).elim
 
-theorem inv_step (cfg : Cfg) (st : State) (p : Prog) (h : Handle) (ev : Event)
-    (hinv : d10FreeProg p = true → Inv cfg st p h)
-    (hd' : d10FreeProg (clientEv (p, h) ev).1 = true) :
+theorem inv_step (cfg : Cfg) (st : State) (p : Prog) (h : Handle) (ev : Event) (hi : Inv cfg st p h) :
     Inv cfg (mech cfg st ev) (clientEv (p, h) ev).1 (clientEv (p, h) ev).2 := by
-  have hdp := d10FreeProg_clientEv p h ev hd'
-  have hi := hinv hdp
   obtain ⟨ctl, held, ended, got, result, crashed, g⟩ := st
   obtain ⟨hc, hi⟩ := hi
   simp only at hc hi
@@ -113,23 +89,20 @@ theorem inv_step (cfg : Cfg) (st : State) (p : Prog) (h : Handle) (ev : Event)
     cases ev with
     | attach s =>
       cases hdm : s.mode.isDetach
-      · simp only [clientEv, hdm, Bool.false_eq_true, ite_false] at hd' ⊢
+      · simp only [clientEv, hdm, Bool.false_eq_true, ite_false]
         refine ⟨rfl, ?_⟩
         simp only []
         simp_all [Inv]
       · simp_all [Inv, clientEv]
     | start sk =>
       simp only [clientEv]
-      have hsteps : d10FreeSteps steps = true := by
-        have := hdp; rw [h2] at this; exact this
       have hrun : Runs { p with start := some sk } := by
         rw [h2]; exact ⟨fun _ => by simp, h7⟩
       have hsp := startLazy_spec cfg src sk.ovr none g
-      refine inv_started cfg _ _ _ true _ _ _ rfl ?_ ?_ hrun ?_ ?_ ?_
+      refine inv_started cfg _ _ _ true _ _ _ rfl ?_ hrun ?_ ?_ ?_
       · cases hk : sk.holds
         · exact Or.inr ⟨by simp, rfl⟩
         · exact Or.inl ⟨by simp, rfl, rfl⟩
-      · rw [d10FreeSteps_overrideHead]; exact hsteps
       · intro r inh c g' hgo
         rw [hgo] at hsp
         obtain ⟨e1, e2⟩ := hsp
@@ -140,11 +113,10 @@ theorem inv_step (cfg : Cfg) (st : State) (p : Prog) (h : Handle) (ev : Event)
         rw [e1, e2]
       · intro w inh g' hw
         rw [hw] at hsp
-        obtain ⟨a1, a2, a3, a4, a5⟩ := hsp
+        obtain ⟨a1, a2, a3, a5⟩ := hsp
         simp only [h3] at a1 a2
         rw [h4] at a3
         rw [h2]
-        refine ⟨?_, a4⟩
         have b1 : (specSrc cfg src sk.ovr true []).2.1 = inh := by rw [a2]
         have b2 : (specSrc cfg src sk.ovr true []).2.2 = g'.subs := by rw [a2]
         simp only [spec, ite_true, Option.bind_some, specThread, specFrames, a1, a5, a3, b1, b2]
@@ -159,18 +131,15 @@ theorem inv_step (cfg : Cfg) (st : State) (p : Prog) (h : Handle) (ev : Event)
     subst h1 h2 h3
     cases ev with
     | attach s =>
-      have hds := (d10FreeProg_attach p s (by simpa [clientEv] using hd')).2
-      have h1 := runSteps_den cfg [s] false false none r inh g.allocCore.allocFunctor
-        (by simp [d10FreeSteps, hds])
       simp only [clientEv, Bool.not_true, Bool.false_eq_true, ite_false]
       have hsp : spec cfg { p with steps := p.steps ++ [s] } =
           specSteps cfg [s] false r inh g.subs g.invoked := by
         rw [spec_attach cfg p s h6, h4]
       cases hdm : s.mode.isDetach
       · simp only [Bool.false_eq_true, ite_false]
-        exact inv_settle cfg _ _ _ _ rfl (Or.inl ⟨rfl, rfl, rfl⟩) (by rw [h1.1, hsp]; rfl) h1.2 (Runs_attach p s h6)
+        exact inv_settle cfg _ _ _ _ rfl (Or.inl ⟨rfl, rfl, rfl⟩) (by rw [runSteps_den, hsp]; rfl) (Runs_attach p s h6)
       · simp only [ite_true]
-        exact inv_settle cfg _ _ _ _ rfl (Or.inr ⟨rfl, rfl⟩) (by rw [h1.1, hsp]; rfl) h1.2 (Runs_attach p s h6)
+        exact inv_settle cfg _ _ _ _ rfl (Or.inr ⟨rfl, rfl⟩) (by rw [runSteps_den, hsp]; rfl) (Runs_attach p s h6)
     | dropFuture => simp_all [Inv, clientEv]
     | get => simp_all [Inv, clientEv]
     | src s lazy head => simp_all [Inv, clientEv]
@@ -178,21 +147,19 @@ theorem inv_step (cfg : Cfg) (st : State) (p : Prog) (h : Handle) (ev : Event)
     | call k => simp_all [Inv, clientEv]
     | start sk => simp_all [Inv, clientEv]
   | pending t =>
-    obtain ⟨h1, h2, h3, h4⟩ := hi
+    obtain ⟨h1, h2, h4⟩ := hi
     cases ev with
     | attach s =>
       cases h1 with
       | inl h1 =>
         obtain ⟨a1, a2, a3⟩ := h1
         subst a1 a2 a3
-        have hds := (d10FreeProg_attach p s (by simpa [clientEv] using hd')).2
         simp only [clientEv, Bool.not_true, Bool.false_eq_true, ite_false]
         refine ⟨by cases s.mode.isDetach <;> rfl, ?_⟩
         have hsp : spec cfg { p with steps := p.steps ++ [s] } =
             specThread cfg (t.attach s) g.subs g.invoked := by
           rw [spec_attach cfg p s h4, specThread_attach, h2]
-        cases hdm : s.mode.isDetach <;>
-          simp [hsp, d10FreeThread_attach t s hds h3, Runs_attach p s h4]
+        cases hdm : s.mode.isDetach <;> simp [hsp, Runs_attach p s h4]
       | inr h1 =>
         obtain ⟨a1, a2⟩ := h1
         subst a1 a2
@@ -205,10 +172,9 @@ theorem inv_step (cfg : Cfg) (st : State) (p : Prog) (h : Handle) (ev : Event)
         simp only []
         by_cases hq : q = q'
         · simp only [hq, ite_true]
-          have h5 := resume_den cfg t none g h3
-          exact inv_settle cfg _ _ _ _ rfl h1 (by rw [h5.1, h2]) h5.2 h4
+          exact inv_settle cfg _ _ _ _ rfl h1 (by rw [resume_den, h2]) h4
         · simp only [hq, ite_false]
-          exact ⟨rfl, h1, h2, h3, h4⟩
+          exact ⟨rfl, h1, h2, h4⟩
     | call k =>
       simp only [clientEv]
       cases hw : t.wait with
@@ -217,10 +183,9 @@ theorem inv_step (cfg : Cfg) (st : State) (p : Prog) (h : Handle) (ev : Event)
         simp only []
         by_cases hq : k = k'
         · simp only [hq, ite_true]
-          have h5 := resume_den cfg t (some k') g h3
-          exact inv_settle cfg _ _ _ _ rfl h1 (by rw [h5.1, h2]) h5.2 h4
+          exact inv_settle cfg _ _ _ _ rfl h1 (by rw [resume_den, h2]) h4
         · simp only [hq, ite_false]
-          exact ⟨rfl, h1, h2, h3, h4⟩
+          exact ⟨rfl, h1, h2, h4⟩
     | dropFuture =>
       cases h1 with
       | inl h1 => obtain ⟨a1, a2, a3⟩ := h1; subst a1 a2 a3; simp_all [Inv, clientEv]
